@@ -322,16 +322,19 @@ def run(ctx, prog):
     # non-error return (a `&&` short-circuit or an early return that skips it leaves a mirror entry the next drain "repairs" back into the cold tier)
     FOLLOW = [('TieredEngine::delete', 'HnswBackend::delete', 'HotTier::delete', None),
               ('TieredEngine::batch_delete', 'HnswBackend::batch_delete', 'HotTier::batch_delete', None),
-              ('TieredEngine::update_metadata', 'HnswBackend::update_metadata', 'HotTier::update_metadata', r'^!bool\[var:existed\]$')]
+              # "the document did not exist" = the false edge of the bool the canonical call itself returned (full origin of the switch operand: whether the
+              # value sits in a named local or is tested in place makes no difference)
+              ('TieredEngine::update_metadata', 'HnswBackend::update_metadata', 'HotTier::update_metadata',
+               r'^!bool\[HnswBackend::update_metadata\(arg:self→TieredEngine\.cold_tier, [^()]*\)@(Continue→Continue|Ok→Ok)\.0\]$')]
     for fn, cold, hot, exempt_rx in FOLLOW:
         b = ctx.body('C04.R4', fn)
         if b is None:
             continue
-        bv = flow.Origin(b, stop_at_vars=True)
+        bf = flow.Origin(b)
         cc = b.calls_to(cold)
         hh = b.calls_to(hot)
         se = [e for c in cc for e in (flow.success_edges(b, c) or [])]
-        ex = [(i_, tg) for i_, blk in enumerate(b.blocks) if blk['t']['k'] == 'switch' for tg, p in flow.switch_edge_predicates(b, i_, bv) if exempt_rx and re.match(exempt_rx, p)]
+        ex = [(i_, tg) for i_, blk in enumerate(b.blocks) if blk['t']['k'] == 'switch' for tg, p in flow.switch_edge_predicates(b, i_, bf) if exempt_rx and re.match(exempt_rx, p)]
         errs = flow.err_blocks(b)
         starts = [e[1] for e in se]
         r_ = (b.reach(starts, avoid_blocks=[c.bb for c in hh] + sorted(errs), avoid_edges=ex) | set(starts)) - set(c.bb for c in hh)
